@@ -8,7 +8,11 @@ from vmc.props import common
 DIMS = {k: v for k, v in scenes.DIMS.items() if k != "clipq"}
 DIMS["fmt"] = ["picosvg", "picosvgz", "untouchedsvg", "untouchedsvgz"]
 DIMS["pretty"] = [False, True]
-K = {"quick": 2, "thorough": 3}
+K = {"quick": 2, "thorough": 2}
+# thorough: every state with <= 2 deviations over all dimensions, plus every state with 3 deviations over the dimensions that
+# meet in the code under test (the full level-3 lattice, ~350 000 states, is available with `--only 3` and was run once: DESIGN 10)
+CORE3 = ("user", "tol", "fmt", "stack", "place", "donor_paint", "copy_paint", "twin", "shared_grad", "grad_twice", "vb_b", "grp",
+         "nglyphs", "where", "pretty")
 
 
 def relevant(dev):
@@ -96,7 +100,9 @@ def run(report, tier, only=None):
 
     selftest.run(report)
     k = int(only) if only and only.isdigit() else K[tier]
-    devs, results = lattice.explore(report, DIMS, k, execute, relevant=relevant, timeout=300)
+    deep = 3 if tier == "thorough" and not (only and only.isdigit()) else None
+    devs, results = lattice.explore(report, DIMS, k, execute, relevant=relevant, timeout=300, deep_dims=CORE3, deep_k=deep)
+    report.extra["deep_sublattice"] = {"dims": [d for d in DIMS if d in CORE3], "bound": deep} if deep else None
     probes = {"valid": 0, "skipped": 0, "bad": 0, "inconclusive_layers": 0}
     for r in results:
         for v in r:
@@ -104,13 +110,14 @@ def run(report, tier, only=None):
                 probes[kk] += n
     report.extra["probes"] = probes
     report.extra["deviation_bound"] = k
+    deep_note = " (plus every assignment with 3 non-default dimensions among the %d core dimensions listed in the evidence)" % len([d for d in DIMS if d in CORE3]) if deep else ""
     report.rule = (
-        "E1: every assignment with <= %d non-default dimensions of the scene/config lattice x "
+        "E1: every assignment with <= %d non-default dimensions{DEEP} of the scene/config lattice x "
         "{picosvg, picosvgz, untouchedsvg, untouchedsvgz} x pretty_print is compiled with the real "
         "_generate_color_font, saved and reloaded; the SVG document covering the glyph id O-SHAPE reaches "
         "must hold exactly one element glyph<ID>, whose point-wise SVG semantics in OT-SVG coordinates "
         "must equal the scene-model picture; distinct = format + (#documents, <use> count, gradient kinds)" % k
-    )
+    ).replace("{DEEP}", deep_note)
     report.assumptions += [
         "fontTools decompiles the SVG table (incl. gunzip) correctly; lxml parses the documents as a renderer would",
         "the SVG evaluator implements the subset of SVG 1.1/2 that nanoemoji reads and writes (validated against resvg in the self-test)",
